@@ -112,3 +112,8 @@ package lib
 //@   assumed[names] bytes(signBytes) == signBytesOf(x)
 //@   ensures[restores] unchanged(x.Header, x.Block, x.BlockHash, x.ResultsHash, x.Results, x.ProposerKey, x.Signature)
 //@   callsite Marshal requires[stripped] (x.Header != nil && x.Header.Phase == Phase_ELECTION_VOTE) || (x.Results == nil && x.Block == nil && x.Signature == nil && unchanged(x.Header, x.BlockHash, x.ResultsHash, x.ProposerKey))
+
+// ---- C07: per-transaction side state ------------------------------------------------------------------
+//@ func (*EventsTracker).Reset
+//@   modifies obj(t)
+//@   ensures[cleared] t != nil ==> t.Events == nil && t.Reference == ""
